@@ -66,8 +66,13 @@ def build_book_model(spec):
     c['TF'].TaxRate = float(spec['theta'])
     gov = c['TRE'] if model == 'PC' else c['GOV']
     gov.SetExogenous('DEM_GOOD', [float(g) for g in spec['G']])
-    hh.AddInitialCondition('F', float(spec['V0']))
-    gov.AddInitialCondition('F', -float(spec['V0']))
+    if spec.get('ic_text'):
+        # initial conditions may be given as text (the value is written into the equation text either way)
+        hh.AddInitialCondition('F', spec['V0'])
+        gov.AddInitialCondition('F', '-' + spec['V0'])
+    else:
+        hh.AddInitialCondition('F', float(spec['V0']))
+        gov.AddInitialCondition('F', -float(spec['V0']))
     if model == 'PC':
         c['DEP'].SetExogenous('r', [float(x) for x in spec['r']])
         hh.SetEquationRightHandSide('L0', spec['lambda0'])
@@ -91,6 +96,8 @@ def case(draw):
         first[1] = first[1] + ' + 0.10*f_half(' + first[0] + ')'
     nm = draw(st.sampled_from([1, 1, 2, 0]))
     models = [draw(c09.params(draw(st.sampled_from(['SIM', 'SIMEX1', 'PC'])))) for _ in range(nm)]
+    for m_ in models:
+        m_['ic_text'] = draw(st.booleans())
     from harness import econ
     econs = [draw(econ.economy(zones=(1, 1), horizon=(2, 2), gold=False))] if draw(st.sampled_from([True, False])) else []
     ops = []
@@ -222,10 +229,11 @@ def run(spec):
             elif op[0] == 'solve-model':
                 mspec = spec['models'][op[1]]
                 item = {'type': 'model', 'spec': mspec}
-                mod = build_book_model(mspec)
-                mod.EquationSolver.TraceStep = trace
-                base = os.path.join(tmp, 'run%d' % i) if op[2] else None
+                mod = None
                 try:
+                    mod = build_book_model(mspec)
+                    mod.EquationSolver.TraceStep = trace
+                    base = os.path.join(tmp, 'run%d' % i) if op[2] else None
                     mod.main(base)
                     outcome = 'ok'
                 except Exception as ex:
@@ -240,7 +248,8 @@ def run(spec):
                     if msg:
                         raise Violation('C17/model-series-differ', 'model %s: %s; history %r' % (mspec['model'], msg, hist))
                 used_specs.add('m%d' % op[1])
-                solvers.append((mod, item))
+                if mod is not None:
+                    solvers.append((mod, item))
                 if op[2] or trace is not None:
                     diag_before_compare = True
             elif op[0] == 'solve-econ':
